@@ -1,2 +1,27 @@
-(* C08 - statements only (proofs pending). *)
-From N2 Require Import Model.All.
+(* C08 - the build log round trip of src/db.rs: statements only; proofs in Proofs/Db*.v *)
+From N2 Require Import Model.All Proofs.DbSpec.
+From N2 Require Import Proofs.DbCodec Proofs.DbWriter Proofs.DbReader Proofs.DbMain Proofs.DbRenumber.
+
+Theorem C08_roundtrip : forall producer ws log, Forall in_bounds ws -> table_small ws -> log_of ws = Ok log -> exists st, db_open true producer log = OpenOk st log /\ forall b, loaded_for st b = last_applicable producer ws b None.
+Proof. exact db_roundtrip. Qed.
+Print Assumptions C08_roundtrip.
+
+Theorem C08_writer_total : forall ws, Forall in_bounds ws -> table_small ws -> exists log, log_of ws = Ok log.
+Proof. exact db_writer_total. Qed.
+Print Assumptions C08_writer_total.
+
+Theorem C08_applied_only_if_all_outputs_match : forall producer ws log st b deps h, Forall in_bounds ws -> table_small ws -> log_of ws = Ok log -> db_open true producer log = OpenOk st log -> loaded_for st b = Some (deps, h) -> exists w, In w ws /\ w_deps w = deps /\ w_hash w = h /\ w_outs w <> [] /\ forall o, In o (w_outs w) -> producer o = Some b.
+Proof. exact db_applied_only_if_all_outputs_match. Qed.
+Print Assumptions C08_applied_only_if_all_outputs_match.
+
+Theorem C08_renumbering_invariant : forall producer sigma log st1 st2, (forall x y : nat, sigma x = sigma y -> x = y) -> db_open true producer log = OpenOk st1 log -> db_open true (fun n => option_map sigma (producer n)) log = OpenOk st2 log -> forall b, loaded_for st2 (sigma b) = loaded_for st1 b.
+Proof. exact db_renumbering_invariant_same_file. Qed.
+Print Assumptions C08_renumbering_invariant.
+
+Theorem C08_renumbering_opens : forall producer sigma log st1 f, (forall x y : nat, sigma x = sigma y -> x = y) -> db_open true producer log = OpenOk st1 f -> exists st2, db_open true (fun n => option_map sigma (producer n)) log = OpenOk st2 f /\ ld_tbl st2 = ld_tbl st1 /\ forall b, loaded_for st2 (sigma b) = loaded_for st1 b.
+Proof. exact db_renumbering_opens. Qed.
+Print Assumptions C08_renumbering_opens.
+
+Theorem C08_pinned_attribution_refuted : exists producer ws log st b, log_of ws = Ok log /\ db_open false producer log = OpenOk st log /\ loaded_for st b <> None /\ last_applicable producer ws b None = None.
+Proof. exact db_pinned_attribution_refuted. Qed.
+Print Assumptions C08_pinned_attribution_refuted.
